@@ -393,6 +393,10 @@ impl MemAddr {
                 let (c, s) = MemStream::pair();
                 l.backlog.lock().unwrap().push_back(s);
                 wake(l.id);
+                // scheduling point: the accepting thread may get going before connect() returns to its caller
+                if let Some((rt, me)) = crate::cur() {
+                    rt.yield_now(me);
+                }
                 Ok(c)
             }
         }
